@@ -173,7 +173,7 @@ func GenCliFamily(w *Writer, r *Rng, t Tier) error {
 	if _, err := os.Stat(CliPath()); err != nil {
 		return fmt.Errorf("CLI binary missing: %v", err)
 	}
-	exprs := []string{"/r/a", "//a", "count(//a)", "/r/a[1]", "//a/@id", "string(/r/b)", "//*", "/nothing", "//a[. = $v]", "//p:a", "/#obj/a", "//a | //b", "//text()", "1 + 1", "//a/ancestor::*", "/html/body/*", "//comment()", "$v", "concat('[', $v, ']')", "string-length($v)"}
+	exprs := []string{"/r/a", "//a", "count(//a)", "/r/a[1]", "//a/@id", "string(/r/b)", "//*", "/nothing", "//a[. = $v]", "//p:a", "/#obj/a", "//a | //b", "//text()", "1 + 1", "//a/ancestor::*", "/html/body/*", "//comment()", "$v", "concat('[', $v, ']')", "string-length($v)", "$p:w", "concat($p:w, '|', count(//p:a))"}
 	for i := 0; i < n; i++ {
 		cr := r.Fork()
 		root, err := os.MkdirTemp("", "xsel-cli-")
@@ -209,6 +209,18 @@ func GenCliFamily(w *Writer, r *Rng, t Tier) error {
 		if strings.Contains(xp, "p:") || cr.Chance(1, 4) {
 			q.ns["p"] = "urn:a"
 			args = append(args, "-s", "p=urn:a")
+		}
+		if strings.Contains(xp, "$p:w") {
+			// a variable in a namespace: the prefix of -v is resolved with ALL -s flags, whatever the order
+			val := Pick(cr, []string{"pw", "a=b"})
+			q.vars["p:w"] = val
+			vflag := []string{"-v", "p:w=" + val}
+			if cr.Chance(1, 2) {
+				// in front of the -s that binds the prefix
+				args = append(append([]string{}, vflag...), args...)
+			} else {
+				args = append(args, vflag...)
+			}
 		}
 		if strings.Contains(xp, "$v") {
 			val := Pick(cr, []string{"one", "two", "a=b", "a=b=c", "=", "x=", "=x"})
